@@ -25,7 +25,14 @@ def firstBad (o : Options) (hs rts : Bool) (s : RStruct) : String :=
 
 def check (c : Ctx) (r : Run) : Verdict :=
   let (cmp, _) := CheckGen.compare c r
-  let corr := CheckGen.corrFor cmp ["struct-names", "struct-derives"]
+  -- "no option changes any other part of the output": the model is independent of the switches outside the derive
+  -- lists and assertions (C09_noninterference), so the WHOLE output is compared, under every option set
+  let corr : Status := match cmp with
+    | .same => .ok
+    | .sameError _ => .ok
+    | .diffs ds => .fail ("section#" ++ ",".intercalate (ds.map (·.1)) ++ ": " ++ (ds.head?.map (·.2)).getD "")
+    | .outcome d => .fail s!"outcome#class: {d}"
+    | .notComparable w => .skip w
   match c.module, r.real with
   | some m, .ok o =>
     if !typeArenaOkB m then { corr := .fail "hypothesis#typeArena: module outside TypeArenaOk", spec := .skip "hypothesis" } else
